@@ -367,7 +367,9 @@ func runCheck(o checkOpts) (int, *checkOutcome) {
 	}
 	if len(retryObl) > 0 && len(retryObl) <= 12 {
 		tmp2, _ := os.MkdirTemp("", "gowp-retry-"+o.prop+"-")
+		fullInstantiation = true
 		rr := Discharge(retryObl, tmp2, timeout*3, 2, unanimous)
+		fullInstantiation = false
 		os.RemoveAll(tmp2)
 		for k, i := range retryIdx {
 			rr[k].Ms += results[i].Ms
